@@ -76,6 +76,10 @@ func syncLogs(repo *chain.Repository, ldb *logdb.LogDB) error {
 }
 
 // buildStream mints the block tree on the omniscient stack and fixes the delivery order.
+// wedge: a linear stream whose first epochs are justified but NOT committed (finality stays at genesis), committed
+// epochs only at the end - the shape in which F2's missing quality makes findCheckpointByQuality fail.
+var wedge = false
+
 func buildStream(seed int64, blocks int) *world {
 	rng := rand.New(rand.NewSource(seed))
 	E := uint32(3)
@@ -152,6 +156,10 @@ func buildStream(seed int64, blocks int) *world {
 			who = 3
 		}
 		com := num >= 2*E && rng.Intn(8) != 0
+		if wedge {
+			who = int(num) % 3
+			com = num >= 6*E
+		}
 		blk := mint(parent, who, com, rng.Intn(2) == 0)
 		if blk == nil {
 			continue
@@ -159,7 +167,7 @@ func buildStream(seed int64, blocks int) *world {
 		trunk = append(trunk, blk)
 		w.stream = append(w.stream, blk)
 		// forks: a sibling of the new block (same parent, another signer), sometimes extended, delivered now or late
-		if rng.Intn(4) == 0 {
+		if !wedge && rng.Intn(4) == 0 {
 			sw := (who + 1 + rng.Intn(3)) % 4
 			if s := mint(parent, sw, rng.Intn(2) == 0, rng.Intn(2) == 0); s != nil {
 				side := []*block.Block{s}
@@ -184,7 +192,7 @@ func buildStream(seed int64, blocks int) *world {
 	// positions after which the node under test produces a block of its own on its best block (decided here, produced
 	// for the first time by the reference run, which inserts the block into the stream)
 	for i := 2; i < len(w.stream); i++ {
-		if rng.Intn(6) == 0 {
+		if !wedge && rng.Intn(6) == 0 {
 			w.ownAt[i] = true
 		}
 	}
@@ -387,6 +395,7 @@ func main() {
 	blocks := flag.Int("blocks", 14, "trunk length")
 	maxcuts := flag.Int("maxcuts", 0, "0 = all cuts, else a seeded sample of that many")
 	double := flag.Bool("double", false, "add a second crash during the resumed run for a sample of cuts")
+	flag.BoolVar(&wedge, "wedge", false, "linear stream with late commits; only the q cuts are run (F2 wedge)")
 	flag.Parse()
 	must(os.MkdirAll(*out, 0o755))
 	// the recording engine stands in for thor's LevelEngine: check the contract that makes this sound on the REAL one
@@ -543,6 +552,16 @@ func main() {
 		w.rng.Shuffle(len(cuts), func(i, j int) { cuts[i], cuts[j] = cuts[j], cuts[i] })
 		cuts = cuts[:*maxcuts]
 		sort.Ints(cuts)
+	}
+	if wedge {
+		var qs []int
+		for _, k := range cuts {
+			if k < ref.n && kvrec.WriteClass(&ref.writes[k]) == "q" {
+				qs = append(qs, k)
+			}
+		}
+		cuts = qs
+		ref.base = 0 // no first-start cuts in this mode
 	}
 	var results []cutResult
 	for g := 0; g < ref.base; g++ {
